@@ -369,8 +369,8 @@ class Kernel:
         else:
             parts = re.sub(r'::<.*>$', '', c).split('::')
             ty = parts[-2].split('<')[0] if len(parts) >= 2 else ''
-        if not ty:
-            return True
+        if not ty or ty[0].islower():
+            return True     # free function in a module: matched by name and arity
         return any(re.search(r'\b' + re.escape(ty) + r'\b', p) for p in it.params) or re.search(r'\b' + re.escape(ty) + r'\b', it.ret) is not None
 
     # ------------------------------------------------------------------ execution
